@@ -221,7 +221,7 @@ def run_engines(c, rng):
     # known mechanism (C02 findings): an open pump carrying reverse flow in WNTR
     for p in spec['pumps']:
         if float(rw.link['flowrate'][p['name']].min()) < -1e-6:
-            c.violate('differs_pump_reverse_flow', 'WNTR reports reverse flow %.4g m3/s through open pump %s (EPANET closes a pump on reverse flow)' % (
+            c.violate('differs_power_pump_reverse_flow' if p['type'] == 'POWER' else 'differs_head_pump_reverse_flow', 'WNTR reports reverse flow %.4g m3/s through open pump %s (EPANET closes a pump on reverse flow)' % (
                 float(rw.link['flowrate'][p['name']].min()), p['name']), **wit)
             return
     qmax = max(1e-4, float(rw.link['flowrate'].abs().max().max()))
